@@ -116,7 +116,7 @@ PROPS = {
                 families=[dict(name="builder", family="builder", profile="default", quick=1500, thorough=30000, shard=150,
                                tags=["nil", "issues", "dtype", "params", "msg", "dest", "calls", "panic", "share"]),
                           # WithCoercer acts on its own schema only: on primitives, through Ptr, on the slice itself, next to global overrides
-                          eng("coercers", "C03", 500, 8000, ["nil", "issues", "dest", "panic"]),
+                          eng("coercers", "C17c", 500, 8000, ["nil", "issues", "dest", "panic"]),
                           # a chain means the same on every later execution of the schema it built: after issues were collected, after a
                           # neighbour caught a failure of a test that shares its Params map
                           dict(name="history", family="history", profile="C07", quick=300, thorough=4000, tags=["params", "msg", "panic"])]),
